@@ -92,7 +92,7 @@ def run_history(seed_pages: dict, rng, days):
                         elif x != y and not (FIRST.match(x) and not has_own):
                             return f"{rel}:{i+1} not to be stamped but changed: {x!r} -> {y!r}"
                 err = diff_index_vs_files(lab)
-                if err and not any(w in err for w in ("  ",)):
+                if err:
                     return f"after reindex on {day}: " + err
                 snap = lab.files()
                 try:
@@ -128,6 +128,16 @@ def histories(tier, seed):
             fails.append({"pages": pages, "error": err, "rng": repr(st)[:0], "seed": seed, "index": i})
         if i == 0:
             samples.append({"pages": {k: v[:160] for k, v in pages.items()}, "days": [d.isoformat() for d in days]})
+    # directed history (always run): a multi-line note is edited on two later days (second stamping takes another branch),
+    # next to an untouched note, a P0 todo and a plain note
+    class Always(random.Random):
+        def random(self):
+            return 0.1  # always the "append a word" edit
+
+    directed = {"d.zo": "# Directed\n\n- 240101#da multi line note\n  * first bullet\n  * second bullet  with  two spaces\no P0 240101#db a P0 todo\nx 240101#dc done todo\n\n"}
+    err = run_history(directed, Always(1), days[:4])
+    if err:
+        fails.append({"pages": directed, "error": err, "seed": seed, "index": -1})
     return {"name": "edit_histories", "bound": f"{n} generated directories x histories over {3 if tier == 'quick' else 4} frozen days (body / kind / priority / header-only edits, notes stamped on earlier days, new and untouched notes) through the real ReindexDBCommand",
             "evaluations": n, "distinct_nontrivial": nontriv, "failures": fails, "samples": samples, "replay_fn": "replay_history"}
 
